@@ -4,8 +4,22 @@
 // Oracle: the real decoder returns Ok or Err; Kani's panic / arithmetic-overflow / index /
 // slice-bounds checks are on; where the decoder returns a collection whose size is driven by a
 // count read from the wire, the size is asserted to be bounded by the input length.
-use alloc::vec::Vec;
+//
+// Genuine defects found here are kept as `__known` harnesses (restricted to the recorded trigger,
+// expected to fail) next to `__rest` harnesses (negated trigger, must pass):
+//   KF-C07-1  FragmentNumberSet::try_read_from_bytes: numBits > 256 -> index out of bounds
+//   KF-C07-2  FragmentNumberSet::try_read_from_bytes: bitmapBase + delta overflows u32 (debug build)
+//   KF-C07-3  String::cdr_deserialize: CDR string length 0 -> `length as usize - 1` underflow
+use alloc::string::String;
 
+use crate::dcps::data_representation_builtin_endpoints::rtps_data_representation::{
+    CdrDeserialize, CdrDeserializer, CdrError, Endianness as CdrEndianness,
+    ParameterList as DiscoveryParameterList,
+};
+use crate::dcps::data_representation_builtin_endpoints::spdp_discovered_participant_data::{
+    BuiltinEndpointQos, BuiltinEndpointSet,
+};
+use crate::infrastructure::time::Duration;
 use crate::rtps_messages::overall_structure::{Endianness, SubmessageHeaderRead, TryReadFromBytes};
 use crate::rtps_messages::submessage_elements::{
     FragmentNumberSet, LocatorList, ParameterList, SequenceNumberSet,
@@ -17,6 +31,7 @@ use crate::rtps_messages::submessages::{
     info_source::InfoSourceSubmessage, info_timestamp::InfoTimestampSubmessage,
     nack_frag::NackFragSubmessage, pad::PadSubmessage,
 };
+use crate::transport::types::{EntityId, Locator, ProtocolVersion};
 
 /// A submessage header decoded by the real header decoder from 4 symbolic bytes: submessage id,
 /// all 8 flags (bit 0 = endianness) and submessage_length are arbitrary.
@@ -46,6 +61,23 @@ fn rd_u32(b: &[u8], at: usize, e: &Endianness) -> u32 {
         Endianness::LittleEndian => u32::from_le_bytes(a),
         Endianness::BigEndian => u32::from_be_bytes(a),
     }
+}
+
+fn rd_u16(b: &[u8], at: usize, e: &Endianness) -> u16 {
+    let a = [b[at], b[at + 1]];
+    match e {
+        Endianness::LittleEndian => u16::from_le_bytes(a),
+        Endianness::BigEndian => u16::from_be_bytes(a),
+    }
+}
+
+macro_rules! body {
+    ($n:expr) => {{
+        let bytes: [u8; $n] = kani::any();
+        let len: usize = kani::any();
+        kani::assume(len <= $n);
+        (bytes, len)
+    }};
 }
 
 // ------------------------------------------------------------------------------------------
@@ -89,17 +121,8 @@ fn c07_submessage_header() {
 }
 
 // ------------------------------------------------------------------------------------------
-// submessages
+// submessages with a SequenceNumberSet
 // ------------------------------------------------------------------------------------------
-
-macro_rules! body {
-    ($n:expr) => {{
-        let bytes: [u8; $n] = kani::any();
-        let len: usize = kani::any();
-        kani::assume(len <= $n);
-        (bytes, len)
-    }};
-}
 
 // @check props=C07 tier=quick
 // @desc AckNackSubmessage::try_from_bytes on arbitrary header + arbitrary body bytes: Ok or Err, no panic
@@ -166,6 +189,10 @@ fn c07_gap_full() {
     core::mem::forget(r);
 }
 
+// ------------------------------------------------------------------------------------------
+// fixed-size submessages
+// ------------------------------------------------------------------------------------------
+
 // @check props=C07 tier=quick
 // @desc HeartbeatSubmessage / HeartbeatFragSubmessage / InfoDestination / InfoSource / InfoTimestamp / Pad ::try_from_bytes on arbitrary header + body: Ok or Err, no panic; Ok only if the fixed-size body is present
 // @bounds body 32 symbolic bytes, symbolic length; loop-free apart from <= 12-byte copies (unwind 14)
@@ -201,83 +228,637 @@ fn c07_fixed_size_submessages() {
     kani::cover!(it.is_err(), "short timestamp rejected");
 }
 
-// @check props=C07 tier=quick
-// @desc DataSubmessage::try_from_bytes on arbitrary header (all flags, any submessage_length incl. 0) + body: Ok or Err, no panic; inline-QoS parameter count and payload size bounded by the body length
-// @bounds body 36 symbolic bytes (20 fixed + 16 for inline QoS / payload; octetsToInlineQos arbitrary so the parameter list may start anywhere), symbolic length; unwind 11 (parameter loop <= 36/4 + 1 iterations)
-// @enc rtps_messages::submessages::data::DataSubmessage::try_from_bytes
-// @enc rtps_messages::submessage_elements::ParameterList::try_read_from_bytes
-#[kani::proof]
-#[kani::unwind(11)]
-fn c07_data() {
-    let h = any_header();
-    let (bytes, len) = body!(36);
-    let r = DataSubmessage::try_from_bytes(&h, &bytes[..len]);
-    if let Ok(d) = &r {
-        assert!(len >= 20, "C07: DATA decoded from fewer bytes than its fixed part");
-        assert!(d.serialized_payload().len() <= len, "C07: DATA payload longer than the input");
-        assert!(d.inline_qos().parameter().len() * 4 <= len, "C07: more inline-QoS parameters than input allows");
+// ------------------------------------------------------------------------------------------
+// DATA
+// ------------------------------------------------------------------------------------------
+
+/// Oracle shared by the DATA harnesses: Ok => fixed part present, payload and every decoded
+/// inline-QoS parameter (count and first value) bounded by the input length.
+fn check_data(h: &SubmessageHeaderRead, body: &[u8]) -> Result<DataSubmessage, ()> {
+    let len = body.len();
+    let r = DataSubmessage::try_from_bytes(h, body);
+    match r {
+        Ok(d) => {
+            assert!(len >= 20, "C07: DATA decoded from fewer bytes than its fixed part");
+            assert!(d.serialized_payload().len() <= len, "C07: DATA payload longer than the input");
+            let np = d.inline_qos().parameter().len();
+            assert!(np * 4 <= len, "C07: more inline-QoS parameters than input allows");
+            if np >= 1 {
+                assert!(
+                    d.inline_qos().parameter()[0].value().len() + d.serialized_payload().len() <= len,
+                    "C07: first parameter value + payload longer than the input"
+                );
+            }
+            if !h.flags()[1] {
+                assert!(np == 0, "C07: parameters decoded although the inline-QoS flag is clear");
+            }
+            if !h.flags()[2] && !h.flags()[3] {
+                assert!(d.serialized_payload().len() == 0, "C07: payload decoded although D and K flags are clear");
+            }
+            Ok(d)
+        }
+        Err(_) => Err(()),
     }
-    kani::cover!(matches!(&r, Ok(d) if d.inline_qos().parameter().len() == 1 && d.serialized_payload().len() > 0), "DATA with one parameter and a payload decodes");
-    kani::cover!(matches!(&r, Ok(d) if d.inline_qos().parameter().len() >= 2), "DATA with two parameters decodes");
-    kani::cover!(r.is_err() && len == 36, "full-length DATA body rejected");
+}
+
+// @check props=C07 tier=quick
+// @desc DataSubmessage::try_from_bytes, inline-QoS flag clear: arbitrary other flags, arbitrary submessage_length (incl. 0 = to end of buffer), arbitrary octetsToInlineQos (payload may start anywhere) + arbitrary body: Ok or Err, no panic; payload size bounded by the body length
+// @bounds body 28 symbolic bytes (20 fixed + 8 payload), symbolic length; loop-free (unwind 6)
+// @assume header flag bit 1 (inline QoS) is 0 — the flag-set half is c07_data_inline_qos
+// @enc rtps_messages::submessages::data::DataSubmessage::try_from_bytes
+#[kani::proof]
+#[kani::unwind(6)]
+fn c07_data_no_inline_qos() {
+    let h = any_header();
+    kani::assume(!h.flags()[1]);
+    let (bytes, len) = body!(28);
+    let r = check_data(&h, &bytes[..len]);
+    kani::cover!(matches!(&r, Ok(d) if d.serialized_payload().len() == 8), "DATA with an 8-byte payload decodes");
+    kani::cover!(matches!(&r, Ok(d) if d.serialized_payload().len() == 3 && h.submessage_length() == 0), "DATA with submessage_length 0 and a payload not at the standard offset decodes");
+    kani::cover!(r.is_err() && len == 28, "full-length DATA body rejected");
     core::mem::forget(r);
 }
 
 // @check props=C07 tier=quick
-// @desc DataFragSubmessage::try_from_bytes on arbitrary header + body: Ok or Err, no panic; parameter count and payload bounded by the body length
-// @bounds body 44 symbolic bytes (32 fixed + 12), symbolic length; unwind 13 (parameter loop <= 44/4 + 1)
+// @desc DataSubmessage::try_from_bytes, inline-QoS flag set, octetsToInlineQos = 16 (the standard offset), arbitrary other flags / submessage_length / body: Ok or Err, no panic; parameter count, first parameter value and payload bounded by the body length
+// @bounds body 32 symbolic bytes (20 fixed + 12: one 4-byte parameter + sentinel, or sentinel + payload), symbolic length; unwind 5 (parameter loop <= 3 iterations)
+// @assume header flag bit 1 (inline QoS) is 1 and the octetsToInlineQos field is 16 (arbitrary offsets: thorough tier c07_data_inline_qos_any_offset)
+// @enc rtps_messages::submessages::data::DataSubmessage::try_from_bytes
+// @enc rtps_messages::submessage_elements::ParameterList::try_read_from_bytes
+#[kani::proof]
+#[kani::unwind(5)]
+fn c07_data_inline_qos() {
+    let h = any_header();
+    kani::assume(h.flags()[1]);
+    let (bytes, len) = body!(32);
+    kani::assume(rd_u16(&bytes, 2, h.endianness()) == 16);
+    let r = check_data(&h, &bytes[..len]);
+    kani::cover!(matches!(&r, Ok(d) if d.inline_qos().parameter().len() == 1 && d.inline_qos().parameter()[0].value().len() == 4), "DATA with one 4-byte parameter decodes");
+    kani::cover!(matches!(&r, Ok(d) if d.inline_qos().parameter().len() == 0 && d.serialized_payload().len() > 0), "DATA with an empty parameter list and a payload decodes");
+    kani::cover!(r.is_err() && len == 32, "full-length DATA body rejected");
+    core::mem::forget(r);
+}
+
+// @check props=C07 tier=thorough timeout=1500
+// @desc DataSubmessage::try_from_bytes, all flags, arbitrary octetsToInlineQos (the parameter list may start anywhere, also inside the fixed part), arbitrary submessage_length + body: Ok or Err, no panic; parameter count and payload bounded
+// @bounds body 32 symbolic bytes, symbolic length; unwind 9 (parameter loop <= 32/4 iterations)
+// @enc rtps_messages::submessages::data::DataSubmessage::try_from_bytes
+// @enc rtps_messages::submessage_elements::ParameterList::try_read_from_bytes
+#[kani::proof]
+#[kani::unwind(9)]
+fn c07_data_inline_qos_any_offset() {
+    let h = any_header();
+    let (bytes, len) = body!(32);
+    let r = check_data(&h, &bytes[..len]);
+    kani::cover!(matches!(&r, Ok(d) if d.inline_qos().parameter().len() >= 2), "DATA with two parameters decodes");
+    kani::cover!(r.is_err() && len == 32, "full-length DATA body rejected");
+    core::mem::forget(r);
+}
+
+// ------------------------------------------------------------------------------------------
+// DATA_FRAG
+// ------------------------------------------------------------------------------------------
+
+fn check_data_frag(h: &SubmessageHeaderRead, body: &[u8]) -> Result<DataFragSubmessage, ()> {
+    let len = body.len();
+    let r = DataFragSubmessage::try_from_bytes(h, body);
+    match r {
+        Ok(d) => {
+            assert!(len >= 32, "C07: DATA_FRAG decoded from fewer bytes than its fixed part");
+            assert!(d.serialized_payload().as_ref().len() <= len, "C07: DATA_FRAG payload longer than the input");
+            let np = d.inline_qos().parameter().len();
+            assert!(np * 4 <= len, "C07: more inline-QoS parameters than input allows");
+            if np >= 1 {
+                assert!(
+                    d.inline_qos().parameter()[0].value().len() + d.serialized_payload().as_ref().len() <= len,
+                    "C07: first parameter value + payload longer than the input"
+                );
+            }
+            if !h.flags()[1] {
+                assert!(np == 0, "C07: parameters decoded although the inline-QoS flag is clear");
+            }
+            Ok(d)
+        }
+        Err(_) => Err(()),
+    }
+}
+
+// @check props=C07 tier=quick
+// @desc DataFragSubmessage::try_from_bytes, inline-QoS flag clear: arbitrary other flags, submessage_length (incl. 0 and values shorter than the fixed part), octetsToInlineQos, fragment fields + body: Ok or Err, no panic; payload bounded by the body length
+// @bounds body 40 symbolic bytes (32 fixed + 8 payload), symbolic length; loop-free (unwind 6)
+// @assume header flag bit 1 (inline QoS) is 0 — the flag-set half is c07_datafrag_inline_qos
 // @enc rtps_messages::submessages::data_frag::DataFragSubmessage::try_from_bytes
 #[kani::proof]
-#[kani::unwind(13)]
-fn c07_data_frag() {
+#[kani::unwind(6)]
+fn c07_datafrag_no_inline_qos() {
     let h = any_header();
+    kani::assume(!h.flags()[1]);
+    let (bytes, len) = body!(40);
+    let r = check_data_frag(&h, &bytes[..len]);
+    kani::cover!(matches!(&r, Ok(d) if d.serialized_payload().as_ref().len() == 8), "DATA_FRAG with an 8-byte payload decodes");
+    kani::cover!(matches!(&r, Ok(d) if d.fragment_size() == 0 && d.fragments_in_submessage() == 0), "DATA_FRAG with fragment size 0 decodes (the decoder does not validate fragment fields)");
+    kani::cover!(r.is_err() && len == 40, "full-length DATA_FRAG body rejected");
+    core::mem::forget(r);
+}
+
+// @check props=C07 tier=quick
+// @desc DataFragSubmessage::try_from_bytes, inline-QoS flag set, octetsToInlineQos = 28 (standard offset), arbitrary other flags / submessage_length / fragment fields / body: Ok or Err, no panic; parameter count, first value and payload bounded
+// @bounds body 44 symbolic bytes (32 fixed + 12), symbolic length; unwind 5 (parameter loop <= 3 iterations)
+// @assume header flag bit 1 (inline QoS) is 1 and octetsToInlineQos field is 28 (arbitrary offsets: thorough tier c07_datafrag_inline_qos_any_offset)
+// @enc rtps_messages::submessages::data_frag::DataFragSubmessage::try_from_bytes
+// @enc rtps_messages::submessage_elements::ParameterList::try_read_from_bytes
+#[kani::proof]
+#[kani::unwind(5)]
+fn c07_datafrag_inline_qos() {
+    let h = any_header();
+    kani::assume(h.flags()[1]);
     let (bytes, len) = body!(44);
-    let r = DataFragSubmessage::try_from_bytes(&h, &bytes[..len]);
-    if let Ok(d) = &r {
-        assert!(len >= 32, "C07: DATA_FRAG decoded from fewer bytes than its fixed part");
-        assert!(d.serialized_payload().as_ref().len() <= len, "C07: DATA_FRAG payload longer than the input");
-        assert!(d.inline_qos().parameter().len() * 4 <= len, "C07: more inline-QoS parameters than input allows");
-    }
-    kani::cover!(matches!(&r, Ok(d) if d.inline_qos().parameter().len() == 1 && d.serialized_payload().as_ref().len() > 0), "DATA_FRAG with one parameter and a payload decodes");
+    kani::assume(rd_u16(&bytes, 2, h.endianness()) == 28);
+    let r = check_data_frag(&h, &bytes[..len]);
+    kani::cover!(matches!(&r, Ok(d) if d.inline_qos().parameter().len() == 1 && d.inline_qos().parameter()[0].value().len() == 4), "DATA_FRAG with one 4-byte parameter decodes");
+    kani::cover!(matches!(&r, Ok(d) if d.inline_qos().parameter().len() == 0 && d.serialized_payload().as_ref().len() > 0), "DATA_FRAG with an empty parameter list and a payload decodes");
     kani::cover!(r.is_err() && len == 44, "full-length DATA_FRAG body rejected");
     core::mem::forget(r);
 }
 
+// @check props=C07 tier=thorough timeout=1500
+// @desc DataFragSubmessage::try_from_bytes, all flags, arbitrary octetsToInlineQos / submessage_length / body: Ok or Err, no panic
+// @bounds body 40 symbolic bytes, symbolic length; unwind 11 (parameter loop <= 40/4 iterations)
+// @enc rtps_messages::submessages::data_frag::DataFragSubmessage::try_from_bytes
+#[kani::proof]
+#[kani::unwind(11)]
+fn c07_datafrag_inline_qos_any_offset() {
+    let h = any_header();
+    let (bytes, len) = body!(40);
+    let r = check_data_frag(&h, &bytes[..len]);
+    kani::cover!(matches!(&r, Ok(d) if d.inline_qos().parameter().len() >= 1), "DATA_FRAG with a parameter decodes");
+    kani::cover!(r.is_err() && len == 40, "full-length DATA_FRAG body rejected");
+    core::mem::forget(r);
+}
+
+// ------------------------------------------------------------------------------------------
+// INFO_REPLY / LocatorList
+// ------------------------------------------------------------------------------------------
+
+fn check_info_reply(h: &SubmessageHeaderRead, body: &[u8]) -> Result<InfoReplySubmessage, ()> {
+    let len = body.len();
+    match InfoReplySubmessage::try_from_bytes(h, body) {
+        Ok(m) => {
+            let n = m._unicast_locator_list().value().len() + m._multicast_locator_list().value().len();
+            assert!(4 + 24 * n <= len, "C07: INFO_REPLY decoded more locators than the input holds");
+            Ok(m)
+        }
+        Err(_) => Err(()),
+    }
+}
+
 // @check props=C07 tier=quick
-// @desc InfoReplySubmessage::try_from_bytes on arbitrary header + body: Ok or Err, no panic; the number of decoded locators (driven by the numLocators counts on the wire) is bounded by body length / 24
-// @bounds body 36 symbolic bytes (count + one locator + second count), symbolic length; unwind 14 (locator loop <= 2 iterations, 16-byte address copy)
+// @desc InfoReplySubmessage::try_from_bytes on arbitrary header + body: Ok or Err, no panic; the number of decoded locators (driven by the numLocators counts on the wire, any u32) is bounded by (body length - 4) / 24
+// @bounds body 32 symbolic bytes (count + one locator + second count), symbolic length; unwind 4 (each locator loop <= 2 iterations: a third locator cannot fit)
 // @enc rtps_messages::submessages::info_reply::InfoReplySubmessage::try_from_bytes
 // @enc rtps_messages::submessage_elements::LocatorList::try_read_from_bytes
 #[kani::proof]
-#[kani::unwind(18)]
+#[kani::unwind(4)]
 fn c07_info_reply() {
     let h = any_header();
-    let (bytes, len) = body!(36);
-    let r = InfoReplySubmessage::try_from_bytes(&h, &bytes[..len]);
-    if let Ok(m) = &r {
-        let n = m._unicast_locator_list().value().len() + m._multicast_locator_list().value().len();
-        assert!(4 + 24 * n <= len, "C07: INFO_REPLY decoded more locators than the input holds");
-    }
+    let (bytes, len) = body!(32);
+    let r = check_info_reply(&h, &bytes[..len]);
     kani::cover!(matches!(&r, Ok(m) if m._unicast_locator_list().value().len() == 1 && m._multicast_flag()), "INFO_REPLY with one unicast locator and an (empty) multicast list decodes");
-    kani::cover!(r.is_err() && len == 36, "INFO_REPLY whose count exceeds the input is rejected");
+    kani::cover!(r.is_err() && len == 32, "INFO_REPLY whose count exceeds the input is rejected");
     core::mem::forget(r);
 }
 
 // @check props=C07 tier=thorough
-// @desc InfoReplySubmessage::try_from_bytes with room for one unicast and one multicast locator
-// @bounds body 60 symbolic bytes, symbolic length; unwind 18
+// @desc InfoReplySubmessage::try_from_bytes with room for one unicast and one multicast locator / two unicast locators
+// @bounds body 60 symbolic bytes, symbolic length; unwind 5
 // @enc rtps_messages::submessages::info_reply::InfoReplySubmessage::try_from_bytes
 #[kani::proof]
-#[kani::unwind(18)]
+#[kani::unwind(5)]
 fn c07_info_reply_full() {
     let h = any_header();
     let (bytes, len) = body!(60);
-    let r = InfoReplySubmessage::try_from_bytes(&h, &bytes[..len]);
-    if let Ok(m) = &r {
-        let n = m._unicast_locator_list().value().len() + m._multicast_locator_list().value().len();
-        assert!(4 + 24 * n <= len, "C07: INFO_REPLY decoded more locators than the input holds");
-    }
+    let r = check_info_reply(&h, &bytes[..len]);
     kani::cover!(matches!(&r, Ok(m) if m._unicast_locator_list().value().len() == 1 && m._multicast_locator_list().value().len() == 1), "one unicast + one multicast locator decode");
     kani::cover!(matches!(&r, Ok(m) if m._unicast_locator_list().value().len() == 2), "two unicast locators decode");
+    core::mem::forget(r);
+}
+
+// ------------------------------------------------------------------------------------------
+// submessage elements, called directly with a symbolic endianness
+// ------------------------------------------------------------------------------------------
+
+// @check props=C07 tier=quick
+// @desc SequenceNumberSet::try_read_from_bytes on arbitrary bytes, both endiannesses: Ok implies numBits <= 256 and exactly 12 + 4*ceil(numBits/32) bytes consumed (<= input length); never panics
+// @bounds 28 symbolic bytes (<= 4 bitmap words), symbolic length; unwind 10 (bitmap loop <= 8)
+// @enc rtps_messages::submessage_elements::SequenceNumberSet::try_read_from_bytes
+#[kani::proof]
+#[kani::unwind(10)]
+fn c07_sequence_number_set() {
+    let e = any_endianness();
+    let (bytes, len) = body!(28);
+    let mut d = &bytes[..len];
+    let r = SequenceNumberSet::try_read_from_bytes(&mut d, &e);
+    if let Ok(s) = &r {
+        assert!(len >= 12, "C07: SequenceNumberSet decoded from < 12 bytes");
+        let nb = rd_u32(&bytes, 8, &e);
+        assert!(nb <= 256, "C07: SequenceNumberSet with numBits > 256 accepted");
+        let words = ((nb + 31) / 32) as usize;
+        assert!(len - d.len() == 12 + 4 * words, "C07: SequenceNumberSet consumed a wrong number of bytes");
+        let hi = rd_u32(&bytes, 0, &e) as i32 as i64;
+        let lo = rd_u32(&bytes, 4, &e) as i64;
+        assert!(s.base() == (hi << 32) + lo, "C07: SequenceNumberSet base");
+    }
+    kani::cover!(r.is_ok() && len == 28, "a set with 4 bitmap words decodes");
+    kani::cover!(matches!(&r, Ok(s) if s.base() < 0), "a negative base decodes");
+    kani::cover!(r.is_err() && len == 28, "a set whose numBits needs more words than present is rejected");
+    core::mem::forget(r);
+}
+
+// @check props=C07 tier=thorough
+// @desc SequenceNumberSet::try_read_from_bytes with room for the maximal 8 bitmap words
+// @bounds 44 symbolic bytes, symbolic length; unwind 10
+// @enc rtps_messages::submessage_elements::SequenceNumberSet::try_read_from_bytes
+#[kani::proof]
+#[kani::unwind(10)]
+fn c07_sequence_number_set_full() {
+    let e = any_endianness();
+    let (bytes, len) = body!(44);
+    let mut d = &bytes[..len];
+    let r = SequenceNumberSet::try_read_from_bytes(&mut d, &e);
+    if r.is_ok() {
+        let nb = rd_u32(&bytes, 8, &e);
+        assert!(nb <= 256, "C07: SequenceNumberSet with numBits > 256 accepted");
+        assert!(len - d.len() == 12 + 4 * (((nb + 31) / 32) as usize), "C07: SequenceNumberSet consumed a wrong number of bytes");
+    }
+    kani::cover!(r.is_ok() && len == 44 && d.len() == 0, "a set with 8 bitmap words decodes");
+    core::mem::forget(r);
+}
+
+// @check props=C07 tier=quick
+// @desc LocatorList::try_read_from_bytes on arbitrary bytes, both endiannesses, numLocators any u32: Ok implies numLocators*24 + 4 bytes consumed <= input, list length == numLocators; never panics
+// @bounds 32 symbolic bytes, symbolic length; unwind 4 (<= 2 loop iterations fit)
+// @enc rtps_messages::submessage_elements::LocatorList::try_read_from_bytes
+#[kani::proof]
+#[kani::unwind(4)]
+fn c07_locator_list() {
+    let e = any_endianness();
+    let (bytes, len) = body!(32);
+    let mut d = &bytes[..len];
+    let r = LocatorList::try_read_from_bytes(&mut d, &e);
+    if let Ok(l) = &r {
+        let n = rd_u32(&bytes, 0, &e) as usize;
+        assert!(l.value().len() == n, "C07: LocatorList length differs from numLocators");
+        assert!(4 + 24 * n <= len, "C07: LocatorList longer than the input allows");
+        assert!(len - d.len() == 4 + 24 * n, "C07: LocatorList consumed a wrong number of bytes");
+    }
+    kani::cover!(matches!(&r, Ok(l) if l.value().len() == 1), "one locator decodes");
+    kani::cover!(r.is_err() && len == 32, "a count larger than the input is rejected");
+    core::mem::forget(r);
+}
+
+// @check props=C07 tier=quick
+// @desc ParameterList::try_read_from_bytes (and the private Parameter reader under it) on arbitrary bytes, both endiannesses: Ok implies a sentinel was found, parameter count <= (len-4)/4 and every value length is a multiple of 4; never panics
+// @bounds 20 symbolic bytes, symbolic length; unwind 7 (parameter loop <= 5 iterations)
+// @enc rtps_messages::submessage_elements::ParameterList::try_read_from_bytes
+#[kani::proof]
+#[kani::unwind(7)]
+fn c07_parameter_list() {
+    let e = any_endianness();
+    let (bytes, len) = body!(20);
+    let mut d = &bytes[..len];
+    let r = ParameterList::try_read_from_bytes(&mut d, &e);
+    if let Ok(l) = &r {
+        let n = l.parameter().len();
+        assert!(len >= 4 && 4 * n <= len - 4, "C07: more parameters than the input allows");
+        if n >= 1 {
+            let v = l.parameter()[0].value().len();
+            assert!(v % 4 == 0 && v <= len - 8, "C07: first parameter value length");
+            assert!(l.parameter()[0].parameter_id() != 1, "C07: sentinel stored as a parameter");
+        }
+    }
+    kani::cover!(matches!(&r, Ok(l) if l.parameter().len() == 2), "two parameters + sentinel decode");
+    kani::cover!(matches!(&r, Ok(l) if l.parameter().len() == 1 && l.parameter()[0].value().len() == 8), "a parameter with an 8-byte value decodes");
+    kani::cover!(r.is_err() && len == 20, "a list without sentinel is rejected");
+    core::mem::forget(r);
+}
+
+// ------------------------------------------------------------------------------------------
+// FragmentNumberSet / NACK_FRAG  (KF-C07-1, KF-C07-2)
+// ------------------------------------------------------------------------------------------
+
+/// numBits > 256: the bitmap reader stops after 8 words (`take`), the member loop does not.
+fn fns_trigger_1(num_bits: u32) -> bool {
+    num_bits > 256
+}
+/// base + (numBits - 1) does not fit in u32: `base + delta_n as u32` can overflow for a set bit.
+fn fns_trigger_2(base: u32, num_bits: u32) -> bool {
+    num_bits >= 1 && num_bits <= 256 && (base as u64) + (num_bits as u64 - 1) > u32::MAX as u64
+}
+
+// @check props=C07,C06 tier=quick known=KF-C07-1
+// @desc KNOWN DEFECT: FragmentNumberSet::try_read_from_bytes with numBits > 256 and 8 bitmap words present indexes bitmap[256/32] out of bounds (no numBits <= 256 check, unlike SequenceNumberSet)
+// @bounds 40 symbolic bytes: base arbitrary, numBits arbitrary > 256, bitmap words zero (so that no element is pushed before the out-of-bounds index is reached); unwind 259
+// @assume trigger: numBits > 256, all 8 bitmap words zero, 40 bytes present
+// @enc rtps_messages::submessage_elements::FragmentNumberSet::try_read_from_bytes
+#[kani::proof]
+#[kani::unwind(259)]
+fn c07_fragment_number_set_numbits__known() {
+    let e = any_endianness();
+    let head: [u8; 8] = kani::any();
+    let mut bytes = [0u8; 40];
+    bytes[..8].copy_from_slice(&head);
+    kani::assume(fns_trigger_1(rd_u32(&bytes, 4, &e)));
+    let mut d = &bytes[..];
+    let r = FragmentNumberSet::try_read_from_bytes(&mut d, &e);
+    kani::cover!(r.is_ok(), "unreachable if the defect is present");
+    core::mem::forget(r);
+}
+
+// @check props=C07,C06 tier=quick known=KF-C07-2
+// @desc KNOWN DEFECT (builds with overflow checks): FragmentNumberSet::try_read_from_bytes computes `base + delta_n as u32` for every set bit; with bitmapBase close to u32::MAX the addition overflows
+// @bounds 16 symbolic bytes (base, numBits <= 32, one bitmap word), unwind 35
+// @assume trigger: 1 <= numBits <= 32 and base + numBits - 1 > u32::MAX
+// @enc rtps_messages::submessage_elements::FragmentNumberSet::try_read_from_bytes
+#[kani::proof]
+#[kani::unwind(35)]
+fn c07_fragment_number_set_base_overflow__known() {
+    let e = any_endianness();
+    let bytes: [u8; 16] = kani::any();
+    let base = rd_u32(&bytes, 0, &e);
+    let nb = rd_u32(&bytes, 4, &e);
+    kani::assume(nb <= 32 && fns_trigger_2(base, nb));
+    let mut d = &bytes[..];
+    let r = FragmentNumberSet::try_read_from_bytes(&mut d, &e);
+    kani::cover!(r.is_ok(), "inputs in the trigger region whose overflowing bit is clear still decode");
+    core::mem::forget(r);
+}
+
+// @check props=C07 tier=quick
+// @desc FragmentNumberSet::try_read_from_bytes outside the two recorded triggers: arbitrary bytes, both endiannesses: Ok or Err, no panic; Ok implies 8 + 4*ceil(numBits/32) bytes consumed
+// @bounds 16 symbolic bytes, symbolic length, numBits <= 32 whenever 8 bytes are present (one bitmap word; member loops <= 32 iterations, unwind 35); larger numBits: thorough tier
+// @assume NOT trigger KF-C07-1 (numBits > 256) and NOT trigger KF-C07-2 (base + numBits - 1 > u32::MAX); numBits <= 32
+// @enc rtps_messages::submessage_elements::FragmentNumberSet::try_read_from_bytes
+// @enc rtps_messages::submessage_elements::FragmentNumberSet::new
+#[kani::proof]
+#[kani::unwind(35)]
+fn c07_fragment_number_set__rest() {
+    let e = any_endianness();
+    let (bytes, len) = body!(16);
+    if len >= 8 {
+        let base = rd_u32(&bytes, 0, &e);
+        let nb = rd_u32(&bytes, 4, &e);
+        kani::assume(!fns_trigger_1(nb) && !fns_trigger_2(base, nb));
+        kani::assume(nb <= 32);
+    }
+    let mut d = &bytes[..len];
+    let r = FragmentNumberSet::try_read_from_bytes(&mut d, &e);
+    if let Ok(s) = &r {
+        let nb = rd_u32(&bytes, 4, &e);
+        assert!(len - d.len() == 8 + 4 * (((nb + 31) / 32) as usize), "C07: FragmentNumberSet consumed a wrong number of bytes");
+        assert!(s.base() == rd_u32(&bytes, 0, &e), "C07: FragmentNumberSet base");
+    }
+    kani::cover!(r.is_ok() && len == 12 && rd_u32(&bytes, 4, &e) == 32, "a set with 32 bits decodes");
+    kani::cover!(r.is_err() && len == 11, "a set with a truncated bitmap word is rejected");
+    core::mem::forget(r);
+}
+
+// @check props=C07 tier=thorough timeout=1500
+// @desc FragmentNumberSet::try_read_from_bytes outside the two recorded triggers with up to 3 bitmap words
+// @bounds 20 symbolic bytes, symbolic length, numBits <= 96 (unwind 99)
+// @assume NOT trigger KF-C07-1 and NOT trigger KF-C07-2; numBits <= 96
+// @enc rtps_messages::submessage_elements::FragmentNumberSet::try_read_from_bytes
+#[kani::proof]
+#[kani::unwind(99)]
+fn c07_fragment_number_set_wide__rest() {
+    let e = any_endianness();
+    let (bytes, len) = body!(20);
+    if len >= 8 {
+        let base = rd_u32(&bytes, 0, &e);
+        let nb = rd_u32(&bytes, 4, &e);
+        kani::assume(!fns_trigger_1(nb) && !fns_trigger_2(base, nb));
+        kani::assume(nb <= 96);
+    }
+    let mut d = &bytes[..len];
+    let r = FragmentNumberSet::try_read_from_bytes(&mut d, &e);
+    kani::cover!(r.is_ok() && len == 20 && rd_u32(&bytes, 4, &e) == 96, "a set with 96 bits decodes");
+    core::mem::forget(r);
+}
+
+// @check props=C07 tier=quick
+// @desc NackFragSubmessage::try_from_bytes outside the two recorded FragmentNumberSet triggers: arbitrary header + body: Ok or Err, no panic; Ok only if the fixed part is present
+// @bounds body 32 symbolic bytes (ids 8, writerSN 8, base 4, numBits 4, one bitmap word, count), symbolic length, numBits <= 32 (unwind 35)
+// @assume NOT trigger KF-C07-1 and NOT trigger KF-C07-2; numBits <= 32
+// @enc rtps_messages::submessages::nack_frag::NackFragSubmessage::try_from_bytes
+#[kani::proof]
+#[kani::unwind(35)]
+fn c07_nack_frag__rest() {
+    let h = any_header();
+    let (bytes, len) = body!(32);
+    if len >= 24 {
+        let base = rd_u32(&bytes, 16, h.endianness());
+        let nb = rd_u32(&bytes, 20, h.endianness());
+        kani::assume(!fns_trigger_1(nb) && !fns_trigger_2(base, nb));
+        kani::assume(nb <= 32);
+    }
+    let r = NackFragSubmessage::try_from_bytes(&h, &bytes[..len]);
+    if r.is_ok() {
+        assert!(len >= 28, "C07: NACK_FRAG decoded from fewer bytes than its fixed part");
+    }
+    kani::cover!(r.is_ok() && len == 32, "a NACK_FRAG with one bitmap word decodes");
+    kani::cover!(r.is_err() && len == 32, "a full-length NACK_FRAG body is rejected");
+    core::mem::forget(r);
+}
+
+// ------------------------------------------------------------------------------------------
+// discovery parameter-list framing and CDR primitives (rtps_data_representation.rs)
+// ------------------------------------------------------------------------------------------
+
+fn any_cdr_endianness() -> CdrEndianness {
+    if kani::any() {
+        CdrEndianness::Little
+    } else {
+        CdrEndianness::Big
+    }
+}
+
+// @check props=C07 tier=quick
+// @desc CdrDeserialize primitives (u8, bool, i16, u16, i32, u32, [u8;2], [u8;3], [u8;16], Locator, ProtocolVersion, Duration, EntityId, BuiltinEndpointSet, BuiltinEndpointQos) on arbitrary bytes, both endiannesses, also after a 1-byte read so that the alignment padding path runs: Ok iff enough bytes, never panics
+// @bounds 28 symbolic bytes, symbolic length; loop-free (unwind 4)
+// @enc dcps::data_representation_builtin_endpoints::rtps_data_representation::CdrDeserialize::cdr_deserialize
+// @enc dcps::data_representation_builtin_endpoints::rtps_data_representation::CdrDeserializer::seek_padding
+#[kani::proof]
+#[kani::unwind(4)]
+fn c07_cdr_primitives() {
+    let e = any_cdr_endianness();
+    let (bytes, len) = body!(28);
+    let d = &bytes[..len];
+    macro_rules! rd {
+        ($t:ty, $need:expr) => {{
+            let r = <$t as CdrDeserialize>::cdr_deserialize(&mut CdrDeserializer::new(d, e));
+            assert!(r.is_ok() == (len >= $need), "C07: CDR primitive decodes iff enough bytes");
+            r
+        }};
+    }
+    let _ = rd!(u8, 1);
+    let _ = rd!(bool, 1);
+    let _ = rd!(i16, 2);
+    let u = rd!(u16, 2);
+    let _ = rd!(i32, 4);
+    let _ = rd!(u32, 4);
+    let _ = rd!([u8; 2], 2);
+    let _ = rd!([u8; 3], 3);
+    let _ = rd!([u8; 16], 16);
+    let loc = rd!(Locator, 24);
+    let _ = rd!(ProtocolVersion, 2);
+    let _ = rd!(Duration, 8);
+    let _ = rd!(EntityId, 4);
+    let _ = rd!(BuiltinEndpointSet, 4);
+    let _ = rd!(BuiltinEndpointQos, 4);
+    if let Ok(v) = u {
+        let want = match e {
+            CdrEndianness::Little => u16::from_le_bytes([bytes[0], bytes[1]]),
+            CdrEndianness::Big => u16::from_be_bytes([bytes[0], bytes[1]]),
+        };
+        assert!(v == want, "C07: CDR u16 value");
+    }
+    // alignment: one octet, then a u32 (3 padding bytes), then a u16 (aligned), then an octet, then a u16 (1 padding byte)
+    let mut de = CdrDeserializer::new(d, e);
+    let a = u8::cdr_deserialize(&mut de);
+    let b = u32::cdr_deserialize(&mut de);
+    let c = u16::cdr_deserialize(&mut de);
+    let f = u8::cdr_deserialize(&mut de);
+    let g = u16::cdr_deserialize(&mut de);
+    assert!(a.is_ok() == (len >= 1), "C07: octet");
+    assert!(b.is_ok() == (len >= 8), "C07: u32 after an octet needs 3 padding bytes + 4");
+    if b.is_ok() {
+        assert!(c.is_ok() == (len >= 10) && f.is_ok() == (len >= 11) && g.is_ok() == (len >= 14), "C07: aligned reads after padding");
+    }
+    kani::cover!(loc.is_ok(), "a locator decodes");
+    kani::cover!(matches!(b, Err(CdrError::NotEnoughData)) && len == 7, "padding + value running past the end is an error");
+    kani::cover!(g.is_ok(), "the whole aligned sequence decodes");
+}
+
+/// Parameter list image with the 4-byte representation header forced to a supported value
+/// (PL_CDR_BE / PL_CDR_LE) half of the time, arbitrary otherwise.
+fn pl_bytes<const N: usize>() -> ([u8; N], usize) {
+    let bytes: [u8; N] = kani::any();
+    let len: usize = kani::any();
+    kani::assume(len <= N);
+    (bytes, len)
+}
+
+// @check props=C07 tier=quick
+// @desc discovery ParameterList::new + get_optional_parameter / get_non_optional_parameter (PidIterator, seek_to_pid, endianness) for the scalar value types on arbitrary bytes and an arbitrary pid: Ok or Err, no panic; a value is only returned when the list has a supported representation header
+// @bounds 20 symbolic bytes (header + up to 4 parameters), symbolic length, symbolic pid; unwind 7 (PidIterator <= 5 items)
+// @enc dcps::data_representation_builtin_endpoints::rtps_data_representation::ParameterList::new
+// @enc dcps::data_representation_builtin_endpoints::rtps_data_representation::ParameterList::get_optional_parameter
+// @enc dcps::data_representation_builtin_endpoints::rtps_data_representation::ParameterList::get_non_optional_parameter
+// @enc dcps::data_representation_builtin_endpoints::rtps_data_representation::PidIterator::next
+#[kani::proof]
+#[kani::unwind(7)]
+fn c07_discovery_parameter_scalars() {
+    let (bytes, len) = pl_bytes::<20>();
+    let pid: i16 = kani::any();
+    match DiscoveryParameterList::new(&bytes[..len]) {
+        Err(_) => {
+            assert!(len < 4, "C07: a parameter list of >= 4 bytes is rejected by new()");
+        }
+        Ok(pl) => {
+            assert!(len >= 4, "C07: a parameter list of < 4 bytes accepted");
+            let supported = bytes[1] == 2 || bytes[1] == 3;
+            let a = pl.get_optional_parameter::<i32>(pid, 7);
+            let b = pl.get_non_optional_parameter::<[u8; 2]>(pid);
+            let c = pl.get_optional_parameter::<bool>(pid, false);
+            let d = pl.get_optional_parameter::<Duration>(pid, Duration { sec: 0, nanosec: 0 });
+            let f = pl.get_non_optional_parameter::<BuiltinEndpointSet>(pid);
+            let g = pl.get_optional_parameter::<EntityId>(pid, EntityId { entity_key: [0; 3], entity_kind: 0 });
+            if !supported {
+                assert!(a.is_err() && b.is_err() && c.is_err() && d.is_err() && f.is_err() && g.is_err(), "C07: value returned from a list with an unsupported representation header");
+            }
+            kani::cover!(matches!(a, Ok(v) if v != 7) && bytes[1] == 2, "a big-endian i32 parameter is found and decoded");
+            kani::cover!(matches!(a, Ok(7)) && matches!(b, Err(CdrError::PidNotFound(_))), "pid not found: default / PidNotFound");
+            kani::cover!(matches!(d, Err(CdrError::NotEnoughData)), "a found parameter too short for its type is an error");
+            kani::cover!(matches!(&d, Ok(v) if v.nanosec > 0) && bytes[1] == 3, "a little-endian Duration parameter is decoded");
+        }
+    }
+}
+
+// @check props=C07 tier=quick
+// @desc discovery ParameterList::get_locator_list on arbitrary bytes, arbitrary pid: Ok or Err, no panic; the number of returned locators is bounded by (len - 4) / 28
+// @bounds 36 symbolic bytes (header + one 24-byte locator parameter + 4), symbolic length; unwind 10 (PidIterator <= 9 items)
+// @enc dcps::data_representation_builtin_endpoints::rtps_data_representation::ParameterList::get_locator_list
+#[kani::proof]
+#[kani::unwind(10)]
+fn c07_discovery_locator_list() {
+    let (bytes, len) = pl_bytes::<36>();
+    kani::assume(len >= 4);
+    let pid: i16 = kani::any();
+    let pl = match DiscoveryParameterList::new(&bytes[..len]) {
+        Ok(pl) => pl,
+        Err(_) => {
+            assert!(false, "C07: a parameter list of >= 4 bytes is rejected by new()");
+            return;
+        }
+    };
+    let r = pl.get_locator_list(pid);
+    if let Ok(l) = &r {
+        assert!(28 * l.len() + 4 <= len, "C07: more locators than the input allows");
+    }
+    kani::cover!(matches!(&r, Ok(l) if l.len() == 1), "one locator parameter is found and decoded");
+    kani::cover!(matches!(&r, Ok(l) if l.is_empty()), "no parameter with that pid");
+    kani::cover!(matches!(&r, Err(CdrError::NotEnoughData)), "a locator parameter shorter than 24 bytes is an error");
+    core::mem::forget(r);
+}
+
+// @check props=C07,C06 tier=quick known=KF-C07-3
+// @desc KNOWN DEFECT: a string-valued discovery parameter (PID_DOMAIN_TAG of SPDP participant data is read with get_optional_parameter::<String>) whose CDR length field is 0 makes String::cdr_deserialize compute `length as usize - 1`
+// @bounds 16 bytes: representation header PL_CDR_LE or PL_CDR_BE (symbolic), parameter header (pid symbolic, length 4), CDR string length 0, sentinel; unwind 6
+// @assume trigger: the parameter found for the requested pid has >= 4 value bytes and its CDR string length field is 0
+// @enc dcps::data_representation_builtin_endpoints::rtps_data_representation::ParameterList::get_optional_parameter
+// @enc dcps::data_representation_builtin_endpoints::rtps_data_representation::String::cdr_deserialize
+#[kani::proof]
+#[kani::unwind(6)]
+fn c07_discovery_string_zero_length__known() {
+    let le: bool = kani::any();
+    let pid: i16 = kani::any();
+    kani::assume(pid != 1 && pid != if le { 0x0300 } else { 0x0002 });
+    let p = if le { pid.to_le_bytes() } else { pid.to_be_bytes() };
+    let l = if le { 4u16.to_le_bytes() } else { 4u16.to_be_bytes() };
+    let bytes: [u8; 16] = [
+        0, if le { 3 } else { 2 }, 0, 0, // representation header
+        p[0], p[1], l[0], l[1], // pid, length 4
+        0, 0, 0, 0, // CDR string length 0
+        if le { 1 } else { 0 }, if le { 0 } else { 1 }, 0, 0, // sentinel
+    ];
+    let pl = match DiscoveryParameterList::new(&bytes[..]) {
+        Ok(pl) => pl,
+        Err(_) => return,
+    };
+    let r = pl.get_optional_parameter::<String>(pid, String::new());
+    kani::cover!(r.is_ok(), "unreachable if the defect is present");
+    core::mem::forget(r);
+}
+
+// @check props=C07 tier=quick
+// @desc String::cdr_deserialize outside the recorded trigger (length field != 0): arbitrary bytes, both endiannesses, length field any non-zero u32: Ok or Err, no panic; the decoded string is not longer than the input
+// @bounds 10 symbolic bytes (length + up to 5 characters + terminator), symbolic length; unwind 12 (UTF-8 validation <= 6 bytes, byte copies)
+// @assume NOT trigger KF-C07-3: if 4 bytes are present the CDR string length field is not 0
+// @enc dcps::data_representation_builtin_endpoints::rtps_data_representation::String::cdr_deserialize
+#[kani::proof]
+#[kani::unwind(12)]
+fn c07_cdr_string__rest() {
+    let e = any_cdr_endianness();
+    let (bytes, len) = body!(10);
+    if len >= 4 {
+        kani::assume(bytes[0] != 0 || bytes[1] != 0 || bytes[2] != 0 || bytes[3] != 0);
+    }
+    let r = String::cdr_deserialize(&mut CdrDeserializer::new(&bytes[..len], e));
+    if let Ok(s) = &r {
+        assert!(s.len() + 5 <= len, "C07: decoded string longer than the input allows");
+    }
+    kani::cover!(matches!(&r, Ok(s) if s.len() == 3), "a 3-character string decodes");
+    kani::cover!(matches!(&r, Ok(s) if s.is_empty()), "the empty string (length 1) decodes");
+    kani::cover!(matches!(&r, Err(CdrError::InvalidData)), "invalid UTF-8 is an error");
+    kani::cover!(matches!(&r, Err(CdrError::NotEnoughData)) && len == 10, "a length larger than the input is an error");
     core::mem::forget(r);
 }
